@@ -211,8 +211,15 @@ def run_history(case, ctx):
                      "fit_dtype": dt_fit, "transform_dtype": dt_tr})
         cfg = {"history": list(hist), "sub": case["sub"]}
         ref = PolynomialFeatures(degree=d, interaction_only=io, include_bias=bias).fit(X)
+        # some steps are fitted on a DataFrame with named columns (the next step, of another width, on whatever comes)
+        as_frame = bool(rng.rand() < 0.3)
+        hist[-1]["fitted_on"] = "DataFrame" if as_frame else "ndarray"
         try:
-            m.fit(X)
+            if as_frame:
+                import pandas
+                m.fit(pandas.DataFrame(X, columns=["col%d" % j for j in range(n)]))
+            else:
+                m.fit(X)
             if rng.rand() < 0.4:
                 # calls that must be refused (wrong width, NaN-free object data, wrong names), then business as usual
                 for badcall in (lambda: m.transform(numpy.ones((2, n + 1))),
@@ -286,6 +293,37 @@ def run_history(case, ctx):
         if g.shape != e.shape or not numpy.allclose(g, e, rtol=1e-12, atol=1e-15):
             ctx.violation("C11/history/values-differ/buffer-refilled-in-place", "transform of an array refilled in place "
                           "returns the monomials of its previous content", cfg=cfg)
+        # a fit refused because of a hyper-parameter (an unknown kind, a degree given as a float) together with another
+        # degree; the parameter is repaired and the instance fitted again: the table is the one of the repaired
+        # configuration, not of the fit before the refusal
+        if rng.rand() < 0.5:
+            d3 = d % 3 + 1
+            badp = [{"kind": "poly_slow", "poly_degree": d3}, {"poly_degree": float(d3)}][int(rng.randint(2))]
+            good = {"kind": kind, "poly_degree": d3}
+            try:
+                m.set_params(**badp)
+                try:
+                    m.fit(X)
+                    refused_p = False
+                except Exception:
+                    refused_p = True
+                m.set_params(**good)
+                if refused_p:
+                    m.fit(X)
+                    ctx.hit("history.fit_refused_by_a_parameter_then_repaired")
+                    ref3 = PolynomialFeatures(degree=d3, interaction_only=io, include_bias=bias).fit(X)
+                    g3, e3 = m.transform(X2), ref3.transform(X2.astype(float))
+                    if g3.shape != e3.shape or m.n_output_features_ != e3.shape[1] or not numpy.allclose(
+                            g3, e3, rtol=1e-4 if X2.dtype == numpy.float32 else 1e-12, atol=1e-15):
+                        ctx.violation("C11/history/values-differ/after-repaired-parameter", "a fit refused because of %s, "
+                                      "the parameter repaired, a new fit: transform has shape %r (n_output_features_=%r), "
+                                      "PolynomialFeatures %r" % (sorted(badp), g3.shape, getattr(
+                                          m, "n_output_features_", None), e3.shape), cfg=cfg)
+                m.set_params(poly_degree=d)
+                m.fit(X)
+            except Exception as e:
+                ctx.violation("C11/history/raised/%s/after-repaired-parameter" % type(e).__name__, str(e)[:150], cfg=cfg)
+                return
         # a fit that validation refuses (NaN) on a matrix of another width, then the instance is used again:
         # whatever transform returns is the monomials of what it was given
         if rng.rand() < 0.5:
